@@ -79,15 +79,49 @@ func (r *seqReader) Read(p []byte) (int, error) {
 
 var ctx = context.Background()
 
+// lowerIDs: build the models with a lower-casing id interceptor on their collections. The collection then lists
+// in the order of the lower-cased ids while the items keep the ids they were given: the listing's order is not
+// the byte order of the ids any more. Ids that collide after lower-casing are left out.
+var lowerIDs bool
+
+func lowerOpt() []resource.Option {
+	if lowerIDs {
+		return []resource.Option{resource.WithIDInterceptor(strings.ToLower)}
+	}
+	return nil
+}
+
+func usable(ids []string) []string {
+	if !lowerIDs {
+		return ids
+	}
+	seen := map[string]bool{}
+	var out []string
+	for _, id := range ids {
+		if l := strings.ToLower(id); !seen[l] {
+			seen[l] = true
+			out = append(out, id)
+		}
+	}
+	return out
+}
+
 func sorted(ids []string) []string {
 	s := append([]string(nil), ids...)
+	if lowerIDs {
+		sort.Slice(s, func(i, j int) bool { return strings.ToLower(s[i]) < strings.ToLower(s[j]) })
+		return s
+	}
 	sort.Strings(s)
 	return s
 }
 
+var lowerable = map[string]bool{"electric.ListModes": true, "publication.ListPublications": true, "vending.ListConsumables": true, "vending.ListInventory": true}
+
 var listers = []lister{
 	{"electric.ListModes", func(ids []string) (func(int32, string) (page, error), []string) {
-		m := electricpb.NewModel()
+		ids = usable(ids)
+		m := electricpb.NewModel(electricpb.WithModeOption(lowerOpt()...))
 		for _, id := range ids {
 			if err := m.AddMode(&traits.ElectricMode{Id: id, Title: "t" + id}); err != nil {
 				panic(err)
@@ -151,7 +185,8 @@ var listers = []lister{
 		}, sorted(ids)
 	}},
 	{"publication.ListPublications", func(ids []string) (func(int32, string) (page, error), []string) {
-		m := publicationpb.NewModel()
+		ids = usable(ids)
+		m := publicationpb.NewModel(publicationpb.WithPublicationOption(lowerOpt()...))
 		for _, id := range ids {
 			if _, err := m.CreatePublication(&traits.Publication{Id: id}); err != nil {
 				panic(err)
@@ -172,7 +207,8 @@ var listers = []lister{
 		}, sorted(ids)
 	}},
 	{"vending.ListConsumables", func(ids []string) (func(int32, string) (page, error), []string) {
-		m := vendingpb.NewModel()
+		ids = usable(ids)
+		m := vendingpb.NewModel(vendingpb.WithConsumablesOption(lowerOpt()...))
 		for _, id := range ids {
 			if _, err := m.CreateConsumable(&traits.Consumable{Name: id}); err != nil {
 				panic(err)
@@ -193,7 +229,8 @@ var listers = []lister{
 		}, sorted(ids)
 	}},
 	{"vending.ListInventory", func(ids []string) (func(int32, string) (page, error), []string) {
-		m := vendingpb.NewModel()
+		ids = usable(ids)
+		m := vendingpb.NewModel(vendingpb.WithInventoryOption(lowerOpt()...))
 		for _, id := range ids {
 			if _, err := m.CreateStock(&traits.Consumable_Stock{Consumable: id}); err != nil {
 				panic(err)
@@ -248,6 +285,7 @@ type pcase struct {
 	Token  string // "": walk the chain from the start; else start from this (corrupted) token
 	Masked bool   // the requests carry a read mask that leaves out the items' key
 	Then   int32  // != 0: every page after the first is requested with this page size instead
+	Lower  bool   // the model's collection lower-cases ids (id interceptor)
 	PT     bool   // the lister's real tokens are base64 of a types.PageToken, and Token does NOT decode as one: it is malformed and must be refused
 }
 
@@ -273,7 +311,8 @@ func limit(size int32) int {
 // walk follows the token chain; returns pages, or a violation.
 func walk(l lister, c pcase, fail func(k, m string), tokens map[string]bool) {
 	useMask = c.Masked
-	defer func() { useMask = false }()
+	lowerIDs = c.Lower
+	defer func() { useMask, lowerIDs = false, false }()
 	list, want := l.build(c.Ids)
 	key := func(clause string) string {
 		ids := strings.Join(c.Ids, ",")
@@ -285,6 +324,9 @@ func walk(l lister, c pcase, fail func(k, m string), tokens map[string]bool) {
 		}
 		if c.Then != 0 {
 			clause += fmt.Sprintf("(then page size %d)", c.Then)
+		}
+		if c.Lower {
+			clause += "(ids lower-cased by the collection)"
 		}
 		return fmt.Sprintf("%s %s size=%d ids=[%s] token=%q", clause, c.Lister, c.Size, ids, c.Token)
 	}
@@ -483,6 +525,14 @@ func main() {
 							s.Trans(1)
 							walk(l, ct, func(k, m string) { s.Fail(k, m, ct) }, nil)
 						}
+					}
+					if lowerable[l.name] && size > 0 && size <= 7 && len(ids) <= 60 {
+						// the same walk on a model whose collection lower-cases ids: listing order and id order differ
+						cl := c
+						cl.Lower = true
+						s.Eval(1)
+						s.Trans(1)
+						walk(l, cl, func(k, m string) { s.Fail(k, m, cl) }, nil)
 					}
 					if size > 0 && size <= 7 && len(ids) <= 60 {
 						// the same walk with a read mask that leaves the items' key out
